@@ -296,6 +296,78 @@ func runCodec(t *testing.T, prop string, c01, c02 bool) *ev.Rec {
 		}
 		c.Event("wire_roundtrip_ok", 1)
 	})
+	// a relay keeps the request it received and forwards a copy that shares the decoded AVP
+	// list (fwd.AVP = req.AVP, or fwd := *req), with a Route-Record inserted in front and an
+	// AVP added at the end: the forwarded image is the reference image of the extended tree, and
+	// the kept request - on which no operation was performed - still is what was received
+	rec.Suite("forwarded-copy", n/20, func(c *ev.Case) {
+		ctx := genCtx(t)
+		m := drawMsg(c, ctx, &gen.Opts{MaxDepth: 3, MaxAVPs: 1 + c.R.IntN(10)})
+		for _, nd := range m.Nodes {
+			if nd.Kind == refcodec.Address && gen.RiskAddress(nd.Fam, nd.B) {
+				return
+			}
+		}
+		refwire := refcodec.EncodeMessage(m.H, m.Nodes)
+		rm, err := diam.ReadMessage(bytes.NewReader(refwire), ctx.Parser)
+		if err != nil {
+			c.Fail(ev.Sig{"op": "read-ref-wire", "risk": ""}, refwire, nil, "ReadMessage of a well-formed reference-encoded message: %v", err)
+			return
+		}
+		if b, err := rm.Serialize(); err != nil || !bytes.Equal(b, refwire) {
+			return // classes with a known finding (address families): not this suite's business
+		}
+		var fwd *diam.Message
+		how := []string{"fwd.AVP = req.AVP", "fwd := *req", "fwd.AVP = req.AVP[:len:len]"}[c.I%3]
+		switch c.I % 3 {
+		case 0:
+			fwd = diam.NewMessage(m.H.Code, m.H.Flags, m.H.App, m.H.HopByHop, m.H.EndToEnd, ctx.Parser)
+			fwd.AVP = rm.AVP
+			fwd.Header.MessageLength = rm.Header.MessageLength
+			fwd.Header.HopByHopID, fwd.Header.EndToEndID = m.H.HopByHop, m.H.EndToEnd
+		case 1:
+			cp := *rm
+			hd := *rm.Header
+			cp.Header = &hd
+			fwd = &cp
+		case 2:
+			fwd = diam.NewMessage(m.H.Code, m.H.Flags, m.H.App, m.H.HopByHop, m.H.EndToEnd, ctx.Parser)
+			fwd.AVP = rm.AVP[:len(rm.AVP):len(rm.AVP)]
+			fwd.Header.MessageLength = rm.Header.MessageLength
+			fwd.Header.HopByHopID, fwd.Header.EndToEndID = m.H.HopByHop, m.H.EndToEnd
+		}
+		nodes := append([]*refcodec.Node(nil), m.Nodes...)
+		ops := ""
+		for k := 1 + c.R.IntN(3); k > 0; k-- {
+			if c.R.IntN(2) == 0 {
+				fwd.InsertAVP(diam.NewAVP(9003, 0x40, 0, datatype.DiameterIdentity("relay.example")))
+				nodes = append([]*refcodec.Node{{Code: 9003, Flags: 0x40, Kind: refcodec.DiameterIdentity, B: []byte("relay.example")}}, nodes...)
+				ops += "I"
+			} else {
+				fwd.NewAVP(9001, 0x40, 0, datatype.OctetString("relay-1"))
+				nodes = append(nodes, &refcodec.Node{Code: 9001, Flags: 0x40, Kind: refcodec.OctetString, B: []byte("relay-1")})
+				ops += "A"
+			}
+		}
+		c.Class("forwarded-copy/%d/avps=%d/ops=%s", c.I%3, min(len(m.Nodes), 8), ops)
+		hf := m.H
+		want := refcodec.EncodeMessage(hf, nodes)
+		got, err := fwd.Serialize()
+		if err != nil || !bytes.Equal(got, want) {
+			c.Fail(ev.Sig{"op": "forwarded-image", "risk": ""}, refwire, nil, "a copy of a received message (%s) extended by %s (I: InsertAVP, A: NewAVP): err=%v, its image differs from the reference image of the extended tree at byte %d", how, ops, err, firstDiff(got, want))
+			return
+		}
+		kept, err := rm.Serialize()
+		if err != nil || !bytes.Equal(kept, refwire) {
+			c.Fail(ev.Sig{"op": "kept-request-image", "risk": ""}, refwire, nil, "after %s and %s on the copy, the kept request - untouched - serialises differently from what was received (err=%v, first difference at byte %d, %d bytes for %d)", how, ops, err, firstDiff(kept, refwire), len(kept), len(refwire))
+			return
+		}
+		if int(rm.Header.MessageLength) != len(kept) && c02 {
+			c.Fail(ev.Sig{"op": "length-bookkeeping", "step": "kept-request"}, kept, nil, "after %s and %s on the copy, the kept request has Header.MessageLength %d and serialises to %d bytes", how, ops, rm.Header.MessageLength, len(kept))
+			return
+		}
+		c.Event("wire_roundtrip_ok", 1)
+	})
 	// messages with one large AVP: around the 64 KiB steps of the body reader and beyond
 	bigLens := []int{65507, 65508, 65528, 65536, 70001, 131044, 131052, 131073, 196608, 300000, 1 << 20}
 	rec.Suite("big-avps", len(bigLens)*rec.N(2, 20), func(c *ev.Case) {
